@@ -11,6 +11,8 @@ that all analyses read one core language:
   if (n := f(x)) > 3: ...            n = f(x)
                                      if n > 3: ...
 
+  x: int = -1   (in a function)      x = -1
+
   with suppress(E1, E2): BODY        try: BODY
   (contextlib's)                     except (E1, E2): pass
 
@@ -237,6 +239,30 @@ class Desugar(ast.NodeTransformer):
     def visit_Assign(self, node):
         return self._simple(node)
 
+    def visit_AnnAssign(self, node):
+        """`x: T = v` is `x = v` (the annotation of a local or attribute
+        is not evaluated into anything the analyses read)."""
+        if node.value is not None and isinstance(
+                node.target, (ast.Name, ast.Attribute)) and self.in_func:
+            a = ast.copy_location(ast.Assign([node.target], node.value),
+                                  node)
+            ast.fix_missing_locations(a)
+            return self._simple(a)
+        if node.value is None and isinstance(node.target, ast.Name) and \
+                self.in_func:
+            return ast.copy_location(ast.Pass(), node)
+        return node
+
+    def visit_FunctionDef(self, node):
+        saved = self.in_func
+        self.in_func = True
+        try:
+            return self.generic_visit(node)
+        finally:
+            self.in_func = saved
+
+    visit_AsyncFunctionDef = visit_FunctionDef
+
     def visit_Return(self, node):
         return self._simple(node) if node.value is not None else node
 
@@ -298,6 +324,7 @@ def _hoist_walrus(stmt, fld):
 
 def desugar(tree):
     d = Desugar()
+    d.in_func = False
     d.suppress_names = set()
     for n in tree.body:
         if isinstance(n, ast.ImportFrom) and n.module == "contextlib":
